@@ -196,6 +196,22 @@ def oracle(c, outs):
     return None
 
 
+def safe_oracle(c, outs):
+    if isinstance(outs, Exception):
+        return "exception while rendering/observing: %s: %s" % (type(outs).__name__, outs)
+    try:
+        return oracle(c, outs)
+    except Exception as e:  # noqa: BLE001
+        return "exception while evaluating the oracle: %s: %s" % (type(e).__name__, e)
+
+
+def safe_run(c):
+    try:
+        return run_history(c)
+    except Exception as e:  # noqa: BLE001
+        return e
+
+
 # ---- generators ---------------------------------------------------------------------------------------
 
 def rand_cells(r, n, chars="abcxyz .", atts=ATTS):
@@ -341,9 +357,12 @@ def cross_check_spec(ctx):
                                              enc_rows(c["sb"]), enc_ops(c["ops"]))
 
     def impl(c):
-        t = Term(c["h"], c["w"], c["junk"], c["cursor"][0], c["cursor"][1], c["sb"])
-        t.run(c["ops"])
-        return "ok " + enc_term(t)
+        try:
+            t = Term(c["h"], c["w"], c["junk"], c["cursor"][0], c["cursor"][1], c["sb"])
+            t.run(c["ops"])
+            return "ok " + enc_term(t)
+        except Exception as e:  # noqa: BLE001
+            return "raised %s: %s" % (type(e).__name__, e)
 
     def cn(reply):
         return tuple(sorted(termref.dec_term(reply[3:].split(" ")).items())) if reply.startswith("ok ") else reply
@@ -361,16 +380,21 @@ def check(ctx):
     outs = {}
 
     def impl(c):
-        o = run_history(c)
-        outs[id(c)] = o
-        return impl_reply(o)
+        # an exception raised by the real code, or while observing/encoding what it did, is a finding, not a crash
+        try:
+            o = run_history(c)
+            outs[id(c)] = o
+            return impl_reply(o)
+        except Exception as e:  # noqa: BLE001
+            outs[id(c)] = e
+            return "raised %s: %s" % (type(e).__name__, e)
 
     ctx.tie("C02/histories", cases, line, impl, canon, canon)
     for c in cases:
         nsteps = len(c["steps"])
         ctx.count(c, nontrivial=nsteps > 1 or any(s[0] == "R" and s[2] for s in c["steps"]),
                   tag="pair" if not c["pyte"] else "history:%d" % nsteps)
-        w = oracle(c, outs[id(c)])
+        w = safe_oracle(c, outs[id(c)])
         if w:
             ctx.violation(w, c, None)
 
@@ -382,7 +406,7 @@ def search(ctx):
     r = ctx.rng
     for _ in range(6000):
         c = rand_history(r)
-        w = oracle(c, run_history(c))
+        w = safe_oracle(c, safe_run(c))
         ctx.count(c, tag="search")
         if w:
             ctx.violation(w, c, None)
